@@ -132,6 +132,7 @@ func (r *Receiver) SegmentHandlerFunc(w http.ResponseWriter, req *http.Request) 
 
 	var ofh *os.File
 	var filePath string
+	var partPath string      // a media segment is written here and renamed to filePath when the upload has been accepted
 	var deleteSegPath string // old segment to remove when this upload has been accepted
 
 	trName := stream.trName
@@ -233,10 +234,16 @@ func (r *Receiver) SegmentHandlerFunc(w http.ResponseWriter, req *http.Request) 
 					log.Debug("Time change", "inTime", inTime, "outTime", rsd.dts, "seqNr", rsd.seqNr)
 					moof.Traf.Tfdt.SetBaseMediaDecodeTime(rsd.dts)
 				}
+				// The segment becomes visible under its name only when the whole upload has been accepted:
+				// a refused upload must neither leave a partial segment nor damage one stored earlier.
 				filePath = filepath.Join(stream.trDir, fmt.Sprintf("%d%s", rsd.seqNr, stream.ext))
-				ofh, err = os.Create(filePath)
+				ofh, err = os.CreateTemp(stream.trDir, fmt.Sprintf("%d%s.*.part", rsd.seqNr, stream.ext))
 				if err != nil {
 					return fmt.Errorf("failed to create file: %w", err)
+				}
+				partPath = ofh.Name()
+				if err = ofh.Chmod(0644); err != nil { // CreateTemp makes the file private; segments are world-readable
+					return fmt.Errorf("failed to set file mode: %w", err)
 				}
 
 				if styp := chunk.Segments[0].Styp; styp != nil {
@@ -302,7 +309,7 @@ func (r *Receiver) SegmentHandlerFunc(w http.ResponseWriter, req *http.Request) 
 		if err != nil {
 			return fmt.Errorf("failed to write chunk: %w", err)
 		}
-		log.Info("Wrote segment", "name", filepath.Base(ofh.Name()), "nrBytes", n)
+		log.Info("Wrote segment", "name", filepath.Base(filePath), "nrBytes", n)
 		if n != len(data) {
 			return fmt.Errorf("failed to write all chunk bytes %d of %d", n, len(data))
 		}
@@ -321,12 +328,25 @@ func (r *Receiver) SegmentHandlerFunc(w http.ResponseWriter, req *http.Request) 
 		p := chunkparser.NewMP4ChunkParser(req.Body, buf, chunkParserCallback)
 		err = p.Parse()
 		if ofh != nil {
-			defer finalClose(ofh)
+			finalClose(ofh)
 		}
 		if err != nil {
+			if partPath != "" {
+				if rmErr := os.Remove(partPath); rmErr != nil {
+					log.Warn("Failed to remove partial segment", "path", partPath, "err", rmErr)
+				}
+			}
 			log.Error("Failed to parse MP4 chunk", "err", err)
 			http.Error(w, "Failed to parse MP4 chunk", http.StatusInternalServerError)
 			return
+		}
+		if partPath != "" {
+			if err = os.Rename(partPath, filePath); err != nil {
+				_ = os.Remove(partPath)
+				log.Error("Failed to store segment", "path", filePath, "err", err)
+				http.Error(w, "Failed to store segment", http.StatusInternalServerError)
+				return
+			}
 		}
 		if contentLength > 0 && rsd.totSize != uint32(contentLength) {
 			log.Error("Failed to receive all bytes", "nrBytesReceived", rsd.totSize, "contentLength", contentLength)
